@@ -541,6 +541,23 @@ func TestC06(t *testing.T) {
 		}
 		c06Free(r, caseID, g, cfg)
 	})
+	// windows inside the driver / detector hand-shake (see c06_handshake_test.go)
+	nWin := r.N(16, 160)
+	parallel(nWin, workers, func(i int) {
+		caseID := fmt.Sprintf("window/%d", i)
+		if !r.Only(caseID) {
+			return
+		}
+		c06Window(r, caseID, rng(r, "window", i), []string{"crash-in-reorg", "crash-after-process"}[i%2])
+	})
+	nSlow := r.N(3, 16)
+	parallel(nSlow, workers, func(i int) {
+		caseID := fmt.Sprintf("window-slow/%d", i)
+		if !r.Only(caseID) {
+			return
+		}
+		c06Window(r, caseID, rng(r, "windowslow", i), "slow-store")
+	})
 	// labelled schedule class: the detector's Start runs in its own goroutine WHILE the syncer
 	// subscribes (exactly what cmd/run.go does: `go reorgDetector.Start(ctx)` followed by the syncers'
 	// constructors). The node must come up and converge on a static chain.
@@ -650,5 +667,5 @@ func TestC06(t *testing.T) {
 		})
 	})
 	r.Set("concurrent_starts_that_converged", int(concStarted.Load()))
-	finish(t, r, r.N(25, 60), "free/*", "rewind/replace*", "rewind/none*", "fork/replaces-served*", "concurrent-start/*")
+	finish(t, r, r.N(25, 60), "free/*", "rewind/replace*", "rewind/none*", "fork/replaces-served*", "concurrent-start/*", "window/crash-in-reorg*", "window/crash-after-process*", "window/slow-store*")
 }
